@@ -580,6 +580,9 @@ func (r *Remote) onExtended(m refwire.Msg) {
 		}
 		r.PexRounds++
 		sw.C.Count("recv:pex", 1)
+		if os.Getenv("VERIF_TRACE_FILE") != "" {
+			sw.Act("%s <- pex added %d dropped %d: +%v -%v", r.Name, len(p.Added4)+len(p.Added6), len(p.Dropped4)+len(p.Dropped6), p.Added4, p.Dropped4)
+		}
 		for _, a := range append(append([]refwire.PexPeer(nil), p.Added4...), p.Added6...) {
 			if r.pexAnnounced[a.Addr] {
 				r.viol("C11", "conformance", "pex-added-twice", fmt.Sprintf("PEX adds %v which is already announced", a.Addr))
@@ -619,6 +622,25 @@ func (r *Remote) write(b []byte) error {
 	r.conn.SetWriteDeadline(time.Now().Add(30 * time.Second))
 	_, err := r.conn.Write(b)
 	return err
+}
+
+// KeepAlives makes the remote send a keep-alive at the given interval for as long as it is connected, as a
+// real peer does (storrent drops a peer it has heard nothing from for five minutes).
+func (r *Remote) KeepAlives(every time.Duration) {
+	go func() {
+		ka := time.NewTicker(every)
+		defer ka.Stop()
+		for {
+			select {
+			case <-r.quit:
+				return
+			case <-r.done:
+				return
+			case <-ka.C:
+				r.write(refwire.Encode(refwire.Msg{Kind: refwire.KKeepAlive}))
+			}
+		}
+	}()
 }
 
 // SendRaw writes raw bytes (hostile frames); no state tracking.
